@@ -9,7 +9,6 @@ CONSTANTS
   AsIs_PipeHang = TRUE
   EnvAtQuiet = FALSE
   GenMinMsgs = 0
-SPECIFICATION FairSpec
+SPECIFICATION Spec
 INVARIANTS TypeOK
-PROPERTY GetsOver
 CHECK_DEADLOCK TRUE
